@@ -20,13 +20,17 @@
 
    Two variants of the code are modelled:
      Current = the tree with fixes/C06-atomic-claim.diff and fixes/C06-create-rollback-main-record.diff applied
-     Pinned  = the tree as found (no claim; main record left behind when the global-list append fails). *)
+              and with the per-client quota admission marker of commit 6d9c096 (fixes/C17-quota-per-client-admission.diff):
+              SetNX tunnox:runtime:conncode:admk:mappings:<listen client> right before the quota scan, Delete when
+              the activation ends with any outcome (deferred; runs after the deferred claim release)
+     Pinned  = the tree as found (no claim; no admission marker; main record left behind when the global-list append fails).
+   The three repairs are independent flags of `cfg`, so intermediate trees are described as well. *)
 From Coq Require Import List Arith NArith Bool.
 Import ListNotations.
 
-Record cfg := { use_claim : bool; create_cleanup : bool }.
-Definition Current : cfg := {| use_claim := true; create_cleanup := true |}.
-Definition Pinned : cfg := {| use_claim := false; create_cleanup := false |}.
+Record cfg := { use_claim : bool; create_cleanup : bool; use_admit : bool }.
+Definition Current : cfg := {| use_claim := true; create_cleanup := true; use_admit := true |}.
+Definition Pinned : cfg := {| use_claim := false; create_cleanup := false; use_admit := false |}.
 
 (* static scenario parameters *)
 Record params := {
@@ -53,6 +57,7 @@ Record sh := {
   by_code : option crec;
   by_id : option crec;
   claim : bool;                  (* ...:claim:<code> present *)
+  admk : list N;                (* ...:admk:mappings:<client> present (30 s TTL, independent of the code's expiry) *)
   mains : list mrec;             (* tunnox:port_mapping:<id> *)
   glob : list nat;               (* tunnox:mappings:list (ids of the entries) *)
   cidx : list (N * nat)          (* tunnox:client_mappings:<client> entries *)
@@ -64,7 +69,9 @@ Inductive res := ROk (m : nat) | RRevoked | RGone | RTick | RErr (e : N) | RUnmo
 
 Inductive pc :=
 | PGet | PQuota | PClaim | PMain | PGlob | PCleanup | PIdxL | PIdxT | PUpdCode | PUpdId
-| PRbL | PRbT | PRbGlob | PRbMain | PRelease (e : N) | PDelGet | PDone (r : res).
+| PRbL | PRbT | PRbGlob | PRbMain | PRelease (e : N) | PDelGet | PDone (r : res)
+| PAdmit                 (* parked at SetNX admission marker *)
+| PRelAdm (r : res).     (* parked at Delete admission marker; r is what the call then returns *)
 
 (* KAct listen laddr laddr_ok *)
 Inductive kind := KAct (l : N) (la : N) (ok : bool) | KRev | KTick.
@@ -89,19 +96,21 @@ Definition set_err (t : lo) (e : N) : lo :=
 Definition finish (t : lo) (r : res) : lo := set_pc t (PDone r).
 
 Definition set_expired (s : sh) : sh :=   (* TTL: code keys and claim vanish *)
-  {| expired := true; by_code := None; by_id := None; claim := false; mains := mains s; glob := glob s; cidx := cidx s |}.
+  {| expired := true; by_code := None; by_id := None; claim := false; admk := admk s; mains := mains s; glob := glob s; cidx := cidx s |}.
 Definition set_by_code (s : sh) (r : option crec) : sh :=
-  {| expired := expired s; by_code := r; by_id := by_id s; claim := claim s; mains := mains s; glob := glob s; cidx := cidx s |}.
+  {| expired := expired s; by_code := r; by_id := by_id s; claim := claim s; admk := admk s; mains := mains s; glob := glob s; cidx := cidx s |}.
 Definition set_by_id (s : sh) (r : option crec) : sh :=
-  {| expired := expired s; by_code := by_code s; by_id := r; claim := claim s; mains := mains s; glob := glob s; cidx := cidx s |}.
+  {| expired := expired s; by_code := by_code s; by_id := r; claim := claim s; admk := admk s; mains := mains s; glob := glob s; cidx := cidx s |}.
 Definition set_claim (s : sh) (b : bool) : sh :=
-  {| expired := expired s; by_code := by_code s; by_id := by_id s; claim := b; mains := mains s; glob := glob s; cidx := cidx s |}.
+  {| expired := expired s; by_code := by_code s; by_id := by_id s; claim := b; admk := admk s; mains := mains s; glob := glob s; cidx := cidx s |}.
 Definition set_mains (s : sh) (m : list mrec) : sh :=
-  {| expired := expired s; by_code := by_code s; by_id := by_id s; claim := claim s; mains := m; glob := glob s; cidx := cidx s |}.
+  {| expired := expired s; by_code := by_code s; by_id := by_id s; claim := claim s; admk := admk s; mains := m; glob := glob s; cidx := cidx s |}.
 Definition set_glob (s : sh) (g : list nat) : sh :=
-  {| expired := expired s; by_code := by_code s; by_id := by_id s; claim := claim s; mains := mains s; glob := g; cidx := cidx s |}.
+  {| expired := expired s; by_code := by_code s; by_id := by_id s; claim := claim s; admk := admk s; mains := mains s; glob := g; cidx := cidx s |}.
 Definition set_cidx (s : sh) (c : list (N * nat)) : sh :=
-  {| expired := expired s; by_code := by_code s; by_id := by_id s; claim := claim s; mains := mains s; glob := glob s; cidx := c |}.
+  {| expired := expired s; by_code := by_code s; by_id := by_id s; claim := claim s; admk := admk s; mains := mains s; glob := glob s; cidx := c |}.
+Definition set_admit (s : sh) (a : list N) : sh :=
+  {| expired := expired s; by_code := by_code s; by_id := by_id s; claim := claim s; admk := a; mains := mains s; glob := glob s; cidx := cidx s |}.
 
 (* one forward write: does it fail, and the remaining fault budget *)
 Definition tick_fault (f : option nat) : bool * option nat :=
@@ -132,7 +141,10 @@ Section Step.
   Variable P : params.
 
   (* where a failed activation / revocation goes once nothing of it is left: release the claim if one is held *)
-  Definition leave (e : N) : pc := if use_claim C then PRelease e else PDone (RErr e).
+  (* how an activation returns r once it holds the admission marker: the deferred ReleaseAdmission runs last *)
+  Definition fin (r : res) : pc := if use_admit C then PRelAdm r else PDone r.
+  Definition leave (e : N) : pc := if use_claim C then PRelease e else fin (RErr e).
+  Definition admitted (s : sh) (l : N) : bool := existsb (N.eqb l) (admk s).
 
   Definition act_step (l la : N) (la_ok : bool) (t : lo) (s : sh) : lo * sh :=
     let me := l_me t in
@@ -145,19 +157,25 @@ Section Step.
             else if c_act r then (finish t (RErr EConflict), s)
             else if expired s then (finish t (RErr EExpired), s)
             else if negb la_ok then (finish t (RErr EInvalid), s)
-            else (set_pc (set_snap t r) PQuota, s)
+            else (set_pc (set_snap t r) (if use_admit C then PAdmit else PQuota), s)
         end
+    | PAdmit =>                                         (* admitClient: SetNX admission marker of the listen client *)
+        let '(f, fl) := tick_fault (l_fault t) in
+        let t := set_fault t fl in
+        if f then (finish t (RErr EStorage), s)
+        else if admitted s l then (finish t (RErr EConflict), s)      (* same client already being admitted *)
+        else (set_pc t PQuota, set_admit s (l :: admk s))
     | PQuota =>                                         (* GetClientPortMappings + quota *)
-        if p_qmax P <=? quota_count P s l then (finish t (RErr EQuota), s)
+        if p_qmax P <=? quota_count P s l then (set_pc t (fin (RErr EQuota)), s)
         else if use_claim C
-             then (if expired s then (finish t (RErr EConflict), s)   (* Claim: TimeRemaining <= 0 *)
+             then (if expired s then (set_pc t (fin (RErr EConflict)), s)   (* Claim: TimeRemaining <= 0 *)
                    else (set_pc t PClaim, s))
              else (set_pc t PMain, s)
     | PClaim =>                                         (* SetNX claim *)
         let '(f, fl) := tick_fault (l_fault t) in
         let t := set_fault t fl in
-        if f then (finish t (RErr EStorage), s)
-        else if claim s then (finish t (RErr EConflict), s)
+        if f then (set_pc t (fin (RErr EStorage)), s)
+        else if claim s then (set_pc t (fin (RErr EConflict)), s)
         else (set_pc t PMain, set_claim s true)
     | PMain =>                                          (* repo.Create: Set main record *)
         let '(f, fl) := tick_fault (l_fault t) in
@@ -191,17 +209,20 @@ Section Step.
         let '(f, fl) := tick_fault (l_fault t) in
         let t := set_fault t fl in
         if f then (set_pc (set_err t EStorage) PRbL, s)
-        else (finish t (ROk me), set_by_id s (Some (mark_activated (l_snap t) l me)))
+        else (set_pc t (fin (ROk me)), set_by_id s (Some (mark_activated (l_snap t) l me)))
     | PRbL =>                                           (* DeletePortMapping: RemoveFromList listen index *)
         (set_pc t (if N.eqb l (p_tgt P) then PRbGlob else PRbT),
          set_cidx s (filter (fun e => negb (idx_is l me e)) (cidx s)))
     | PRbT => (set_pc t PRbGlob, set_cidx s (filter (fun e => negb (idx_is (p_tgt P) me e)) (cidx s)))
     | PRbGlob => (set_pc t PRbMain, set_glob s (filter (fun i => negb (Nat.eqb i me)) (glob s)))
     | PRbMain => (set_pc t (leave (l_err t)), del_main s me)
-    | PRelease e => (finish t (RErr e), set_claim s false)
+    | PRelease e => (set_pc t (fin (RErr e)), set_claim s false)
+    | PRelAdm r => (finish t r, set_admit s (filter (fun c => negb (N.eqb c l)) (admk s)))   (* ReleaseAdmission *)
     | PDelGet => (finish t RUnmodelled, s)
     | PDone _ => (t, s)
     end.
+
+  Definition rleave (e : N) : pc := if use_claim C then PRelease e else PDone (RErr e).
 
   Definition rev_step (t : lo) (s : sh) : lo * sh :=
     match l_pc t with
@@ -231,12 +252,12 @@ Section Step.
     | PUpdCode =>
         let '(f, fl) := tick_fault (l_fault t) in
         let t := set_fault t fl in
-        if f then (set_pc t (leave EStorage), s)
+        if f then (set_pc t (rleave EStorage), s)
         else (set_pc t PUpdId, set_by_code s (Some (l_snap t)))
     | PUpdId =>
         let '(f, fl) := tick_fault (l_fault t) in
         let t := set_fault t fl in
-        if f then (set_pc t (leave EStorage), s)
+        if f then (set_pc t (rleave EStorage), s)
         else (finish t RRevoked, set_by_id s (Some (l_snap t)))
     | PRelease e => (finish t (RErr e), set_claim s false)
     | PDone _ => (t, s)
@@ -265,12 +286,12 @@ Definition init_lo (me : nat) (k : kind) (nocode : bool) (f : option nat) : lo :
      l_snap := fresh_code; l_fault := f; l_err := 0 |}.
 
 Definition init_sh (code : option crec) : sh :=
-  {| expired := false; by_code := code; by_id := code; claim := false; mains := []; glob := []; cidx := [] |}.
+  {| expired := false; by_code := code; by_id := code; claim := false; admk := []; mains := []; glob := []; cidx := [] |}.
 
 (* gate-op code of the storage call a thread is parked at (harness/cmd/c06/main.go op* constants) *)
 Definition pc_code (p : pc) : nat :=
   match p with
   | PGet => 1 | PQuota => 2 | PClaim => 3 | PMain => 4 | PGlob => 5 | PIdxL => 6 | PIdxT => 7
   | PUpdCode => 8 | PUpdId => 9 | PRbL => 10 | PRbT => 11 | PRbGlob => 12 | PRbMain => 13 | PCleanup => 13
-  | PRelease _ => 14 | PDelGet => 15 | PDone _ => 0
+  | PRelease _ => 14 | PDelGet => 15 | PAdmit => 16 | PRelAdm _ => 17 | PDone _ => 0
   end.
